@@ -4,18 +4,6 @@ import Ogen.ParamNeverWrong_proof
     (path parameter, object with no fields) that the planned `fix:` turns into an encoder error. -/
 namespace Codec
 
-/-- `validateParamStyle`'s table (openapi/parser/parse_parameter.go); in the build this is generated from the source -/
-def admitted (c : Cfg) : Bool :=
-  match c.loc, c.style, c.explode, c.shape with
-  | .path, .simple, _, _ | .path, .label, _, _ | .path, .matrix, _, _ => true
-  | .query, .form, _, _ => true
-  | .query, .pipe, _, .arr => true
-  | .query, .deep, true, .obj => true
-  | .header, .simple, _, _ => true
-  | .cookie, .form, true, .prim => true
-  | .cookie, .form, false, _ => true
-  | _, _, _, _ => false
-
 theorem pathDec_no_panic (c : Cfg) (w : Bytes) : pathDec c w ≠ .panic := by
   unfold pathDec
   split
@@ -25,7 +13,7 @@ theorem pathDec_no_panic (c : Cfg) (w : Bytes) : pathDec c w ≠ .panic := by
     · simp only
       split <;> simp
 
-theorem pathEnc_panic {c : Cfg} {v : Val} (h : pathEnc c v = .error .panic) : v = .obj [] := by
+theorem pathEnc_no_panic {c : Cfg} {v : Val} (h : pathEnc c v = .error .panic) : False := by
   unfold pathEnc at h
   simp only at h
   rcases ite_err_err h with h | h
@@ -40,9 +28,7 @@ theorem pathEnc_panic {c : Cfg} {v : Val} (h : pathEnc c v = .error .panic) : v 
     | obj fields =>
       simp only at h
       split at h
-      · rename_i he
-        have : fields = [] := by simpa using he
-        rw [this]
+      · cases h
       · rcases ite_err_err h with h | h
         · cases h
         · cases h
@@ -124,8 +110,8 @@ theorem queryDec_panic {c : Cfg} {names : List Bytes} {vs : Values} (h : queryDe
   simp only at h
   repeat' (first | contradiction | assumption | split at h)
 
-theorem c06_no_panic (c : Cfg) (v : Val) (hadm : admitted c = true) (hfit : Fits c v)
-    (hP1 : ¬ (c.loc = .path ∧ v = .obj [])) : roundTrip c v ≠ .panic := by
+theorem c06_no_panic (c : Cfg) (v : Val) (hadm : admitted c = true) (hfit : Fits c v) :
+    roundTrip c v ≠ .panic := by
   have hshape := fits_shape c v hfit
   unfold roundTrip
   cases hloc : c.loc with
@@ -137,7 +123,7 @@ theorem c06_no_panic (c : Cfg) (v : Val) (hadm : admitted c = true) (hfit : Fits
       simp only
       intro he
       subst he
-      exact hP1 ⟨hloc, pathEnc_panic henc⟩
+      exact pathEnc_no_panic henc
   | header =>
     simp only
     cases henc : headerEnc c v with
